@@ -45,12 +45,28 @@ class Explorer:
         self.callers = []
         self.h2 = cfg.get("http2", False)
         self.peers = []
+        self.wrappers_peers = []      # proxy / SOCKS servers in front of the origin peers (kinds other than "direct")
         self.steplog = []             # per step: (callers done so far, ids of pooled connections)
 
     # ---- world ----------------------------------------------------------------------------------
     def peer_factory(self, rec):
+        """what answers a new socket: the origin itself, or an HTTP proxy / SOCKS5 server in front of a fresh origin peer"""
+        kind = self.cfg.get("kind", "direct")
+        if kind in ("forward", "tunnel"):
+            p = servers.ProxyServer(inner_factory=lambda _t=None: self.origin_peer(rec))
+            if kind == "forward":
+                p.forward = self.origin_peer(rec, h2=False)
+            self.wrappers_peers.append(p)
+            return p
+        if kind == "socks5":
+            p = servers.SocksServer(inner_factory=lambda _t=None: self.origin_peer(rec))
+            self.wrappers_peers.append(p)
+            return p
+        return self.origin_peer(rec)
+
+    def origin_peer(self, rec, h2=None):
         import scen
-        if self.h2:
+        if self.h2 if h2 is None else h2:
             p = simnet.H2Peer(handler=scen.h2_handler_factory([]), settings=self.cfg.get("h2_settings"))
             p.reqs = {}
             p.server_closed = False
@@ -90,12 +106,21 @@ class Explorer:
         kw = dict(max_connections=self.cfg["max_connections"], max_keepalive_connections=self.cfg.get("max_keepalive"),
                   keepalive_expiry=self.cfg.get("keepalive_expiry"), http2=self.h2, retries=self.cfg.get("retries", 0),
                   network_backend=simnet.AsyncSimBackend(self.net))
-        if self.h2:
+        if self.h2 or self.tls():
             kw["ssl_context"] = simnet.RecordingSSLContext()
+        kind = self.cfg.get("kind", "direct")
+        if kind in ("forward", "tunnel"):
+            kw["proxy"] = httpcore.Proxy("http://proxy.example:3128")
+        elif kind == "socks5":
+            kw["proxy"] = httpcore.Proxy("socks5://socks.example:1080")
         self.pool = httpcore.AsyncConnectionPool(**kw)
 
+    def tls(self):
+        kind = self.cfg.get("kind", "direct")
+        return kind == "tunnel" or (kind != "forward" and (self.h2 or self.cfg.get("tls", False)))
+
     def url(self, c):
-        scheme = "https" if self.h2 else "http"
+        scheme = "https" if self.tls() else "http"
         return f"{scheme}://o{c.origin}.example/{c.token}"
 
     # ---- caller coroutine -----------------------------------------------------------------------
@@ -176,12 +201,14 @@ class Explorer:
             self.violations.append(("C04:streams-exceed-limit", {"where": where, "open": self.net.open_sockets(), "max": maxc,
                                                                    "conns": [c.info() for c in conns]}))
         # C07: no serviceable waiter (skipped while some task is still inside a connection close: its pass follows)
-        closing_in_progress = any(p.rec["op"] == "close" for p in self.net.pending if not p.done)
+        closing_in_progress = any(p.rec["op"] == "close" or p.rec.get("in_close") for p in self.net.pending if not p.done)
         for pr in ([] if closing_in_progress else list(pool._requests)):
             if pr.is_queued():
                 origin = pr.request.url.origin
                 avail = [c for c in conns if c.can_handle_request(origin) and c.is_available()]
-                idle = [c for c in conns if c.is_idle()]
+                # an idle connection that some request holds is about to be used and is not free to be evicted (C07.pass_complete, `freeIdle`)
+                held = {id(r.connection) for r in pool._requests if r.connection is not None}
+                idle = [c for c in conns if c.is_idle() and id(c) not in held]
                 stale = [c for c in conns if c.is_closed() or c.has_expired()]
                 if avail or len(conns) < maxc or idle or stale:
                     why = "available" if avail else "room" if len(conns) < maxc else "idle" if idle else "stale"
@@ -205,7 +232,8 @@ class Explorer:
             return
         self._crosstalk_done = True
         for c in self.callers:
-            want = b"echo:/" + c.token.encode() + b":" + (c.req_body or b"")
+            target = (self.url(c).encode() if self.cfg.get("kind") == "forward" else b"/" + c.token.encode())   # forwarding proxies see the absolute URL
+            want = b"echo:" + target + b":" + (c.req_body or b"")
             if c.outcome == "ok":
                 if c.body not in (want, want + b":" + b"z" * 3000):
                     self.violations.append(("C01:wrong-response", {"caller": c.idx, "got": repr(c.body)[:80], "want": repr(want)[:80]}))
@@ -530,6 +558,11 @@ def gen_cfg(rng, profile):
     cfg = {"max_connections": rng.choice([1, 1, 2]), "origins": rng.choice([1, 2, 3]), "callers": rng.randint(2, 5),
            "max_keepalive": rng.choice([None, None, 0, 1]), "p_hold": 0.3, "http2": False, "p_conn_close": rng.choice([0.0, 0.3])}
     cfg.update(profile)
+    if "kind" not in cfg:
+        # how the pool reaches the origin: directly (half of the runs), through a forwarding / tunnelling HTTP proxy or a SOCKS5 proxy
+        kinds = ["direct", "direct", "direct", "tunnel", "socks5", "socks5"] + ([] if cfg.get("http2") else ["forward"])
+        cfg["kind"] = rng.choice(kinds)
+        cfg["tls"] = rng.random() < 0.5
     return cfg
 
 
@@ -572,9 +605,17 @@ def explore(ctx, rec, pid, profile, n_quick, n_thorough, want_prefixes, runtimes
                                 "outcomes": [c.outcome for c in ex.callers]})
 
 
+# oracles whose failures are attributed to the connection classes (direct / forward / tunnel / SOCKS): the kind is part of the signature.
+# The C05 / C07 "blocked" clauses are pool-level (F-C05-f is the same defect whatever the pool's connections are) and stay kind-agnostic.
+KIND_SENSITIVE = ("C04:streams-exceed-limit", "C04:limit-exceeded", "C06:stream-left-open", "C07:serviceable-waiter", "C01:wrong-response",
+                  "C01:reused-before-exchange-finished")
+
+
 def signature_of(clause, detail, cfg, ex):
     """Reduce a failing run to what identifies the defect (used to match known findings)."""
     sig = {"proto": "h2" if cfg.get("http2") else "h1"}
+    if cfg.get("kind", "direct") != "direct" and clause in KIND_SENSITIVE:
+        sig["kind"] = cfg["kind"]
     cancels = [t for t in ex.trace if t[0] == "cancel"]
     faults = [t for t in ex.trace if t[0] == "fault"]
     sig["trigger"] = "native-cancel" if any(t[2] == "native" for t in cancels) else "cancel" if cancels else "fault" if faults else "none"
@@ -611,3 +652,7 @@ def run_c07(ctx, rec):
     explore(ctx, rec, "C07", {"p_fault": 0.1, "p_cancel": 0.12, "pool_timeout": None, "gate_close": True, "p_conn_close": 0.4}, 60, 8000, ["C07:"])
     explore(ctx, rec, "C07", {"p_fault": 0.05, "p_cancel": 0.05, "pool_timeout": 4.0, "gate_close": True, "p_conn_close": 0.4,
                               "max_connections": 1}, 60, 8000, ["C07:"])
+    # HTTP/2 enabled: requests share a connection (also one that is still being established - directly, through a tunnel or SOCKS)
+    explore(ctx, rec, "C07", {"p_fault": 0.0, "p_cancel": 0.0, "http2": True, "p_conn_close": 0.0, "pool_timeout": None}, 30, 3000, ["C07:"])
+    explore(ctx, rec, "C07", {"p_fault": 0.05, "p_cancel": 0.05, "http2": True, "p_conn_close": 0.0, "pool_timeout": None,
+                              "max_connections": 1}, 30, 3000, ["C07:"])
